@@ -299,6 +299,14 @@ def oracle_gfa2(case):
             out.append(('E line has no correct L/C counterpart', e, [x for x in got if x[1] in (e[1], e[3])][:3]))
     if len(got) != len(expected):
         out.append(('number of converted edges', len(expected), len(got)))
+    # an ordered group over segments becomes the path over the same oriented segments
+    P1 = {x.split('\t')[1]: x.split('\t') for x in l1 if x.startswith('P\t')}
+    for l in lines:
+        f = l.split('\t')
+        if f[0] == 'O' and f[1] != '*':
+            p = P1.get(f[1])
+            if p is None or p[2].split(',') != f[2].split(' '):
+                out.append(('ordered group not converted to the path over the same oriented segments', l, p))
     S1 = {x.split('\t')[1]: x.split('\t') for x in l1 if x.startswith('S\t')}
     for l in lines:
         f = l.split('\t')
@@ -404,7 +412,32 @@ def gen_case(rng, i):
             break
         dropped |= set(l.split('\t')[1] for l in gone)
         lines = [l for l in lines if l not in gone]
-    return {'kind': 'gfa2', 'doc': lines}
+    # ordered groups over dovetail edges, walked in both directions, some of the edges with an alignment that is not its
+    # own complement: the P line of the converted document must quote the overlap its L line carries
+    out = []
+    k = 0
+    for l in lines:
+        f = l.split('\t')
+        if f[0] == 'E' and f[2][:-1] != f[3][:-1]:
+            k1 = SE.ikind(SE.parse_pos(f[4]), SE.parse_pos(f[5]))
+            k2 = SE.ikind(SE.parse_pos(f[6]), SE.parse_pos(f[7]))
+            istrace = ',' in f[8] or f[8].isdigit()
+            if SE.edge_class(f[2][-1], f[3][-1], k1, k2) == 'L' and not istrace:
+                if rng.random() < 0.5:
+                    f[8] = rng.choice(['2M1D1M', '1M1I2M', '3M2D', '1I3M'])
+                    l = '\t'.join(f)
+                if rng.random() < 0.7:
+                    k += 1
+                    s1from = SE.eff(f[2][-1], k1) == 'sfx'
+                    a, b = (f[2], f[3]) if s1from else (f[3], f[2])
+                    fwd = [a, b]
+                    rev = [b[:-1] + INV[b[-1]], a[:-1] + INV[a[-1]]]
+                    items = rng.choice([fwd, rev])
+                    out.append(l)
+                    out.append('O\tow%d\t%s' % (k, ' '.join(items)))
+                    continue
+        out.append(l)
+    return {'kind': 'gfa2', 'doc': out}
 
 
 def nontrivial(case):
